@@ -63,6 +63,8 @@ def coq_case(c) -> str:
                 "(" + _coords(c["wpos"]) + " : list (list float))",
                 "(" + _zf(c["ldm"]) + " : list (Z * float))",
                 "(" + _zf(c["rdm"]) + " : list (Z * float))",
+                "([" + "; ".join(f"({coq_Z(q)}, {_coord(p)})" for q, p in c.get("direct", [])) + "] : list (Z * list float))",
+                _zs(c.get("dids", [])),
             ]
         )
         + ")"
@@ -82,7 +84,7 @@ class C19(PropCheck):
     id = "C19"
     props_file = "Props/C19.v"
     shard = 60
-    quick_cases = 480
+    quick_cases = 1200
     thorough_cases = 12000
     assumptions = [
         "coordinates and weights are finite floats (no NaN/inf); |coordinate| < 2^52 * 1e-6 um",
@@ -162,6 +164,7 @@ class C19(PropCheck):
                     chosen=[[i, p[i]] for i in range(n)], wcoords=base, weights=ws, wcoords2=c2,
                     weights2=[ws[i] for i in p], wpos=[base[p[-1]]],
                     ldm=[[i, ws[i]] for i in p], rdm=[[i, ws[p[i]]] for i in range(n)],
+                    direct=[], dids=[],
                 )
                 _, v = c19_impl.run(case)
                 viols += v
